@@ -1,11 +1,135 @@
-(* C18 — property theorems (statements closed by `exact <lemma>`). *)
-From Coq Require Import ZArith List Bool Lia.
+(* C18 — property theorems.  Only statements closed by `exact <lemma>` (or a 1-3
+   line wrapper) and the Print Assumptions the check collects.
+   Ring / field theorems quantify over an arbitrary carrier R with its
+   ring_theory / field_theory, so they cover the reals and the complex numbers. *)
+From Coq Require Import ZArith List Bool Lia Ring Field.
 From IBL.lib Require Import PyInt.
-From IBL.C18 Require Import Model Proofs.
+From IBL.C18 Require Import Model Sums Proofs Conv.
 Import ListNotations.
 Open Scope Z_scope.
 
+(* ---- ns_optim_fft ------------------------------------------------------ *)
+(* For 1 <= n <= 14155776 (the largest table entry below 3^15, the first 3-smooth
+   number the 25 x 15 table misses) the result is the least 2^a 3^b >= n. *)
+Theorem C18_ns_optim_smallest : forall n, 1 <= n <= 14155776 ->
+  exists m, ns_optim n = Some m /\ n <= m /\
+    (exists a b, 0 <= a /\ 0 <= b /\ m = 2 ^ a * 3 ^ b) /\
+    (forall a b, 0 <= a -> 0 <= b -> n <= 2 ^ a * 3 ^ b -> m <= 2 ^ a * 3 ^ b).
+Proof. exact ns_optim_smallest. Qed.
+Print Assumptions C18_ns_optim_smallest.
+
+(* The bound is the table's documented limit: one above it the answer skips 3^15. *)
+Theorem C18_ns_optim_bound_tight :
+  exists m, ns_optim (14155776 + 1) = Some m /\ 3 ^ 15 < m /\ 14155776 + 1 <= 3 ^ 15.
+Proof. exact ns_optim_bound_tight. Qed.
+Print Assumptions C18_ns_optim_bound_tight.
+
+(* Up to the end of the table (2^24 3^14) the helper returns a size not below its
+   argument; convolve therefore never truncates. *)
+Theorem C18_ns_optim_total : forall n, n <= 80244904034304 ->
+  exists m, ns_optim n = Some m /\ n <= m.
+Proof. exact ns_optim_some. Qed.
+Print Assumptions C18_ns_optim_total.
+
+(* ---- convolve ---------------------------------------------------------- *)
+(* Circular convolution theorem, every N >= 1, any field with a primitive N-th
+   root of unity om (omi = 1/om, invN = 1/N):
+   ifft(fft(a) * fft(b))[k] = sum_{j<N} a[j] * b[(k - j) mod N]. *)
+Theorem C18_circular_convolution_theorem :
+  forall (R : Type) (rO rI : R) (radd rmul rsub : R -> R -> R) (ropp : R -> R)
+         (rdiv : R -> R -> R) (rinv : R -> R),
+  field_theory rO rI radd rmul rsub ropp rdiv rinv (@eq R) ->
+  forall (N : nat) (om omi invN : R),
+  (0 < N)%nat ->
+  rpow R rI rmul om N = rI ->
+  rmul om omi = rI ->
+  (forall d, (0 < d < N)%nat -> rpow R rI rmul om d <> rI) ->
+  rmul invN (rsum R rO radd N (fun _ => rI)) = rI ->
+  forall (a b : list R) (k : nat), (k < N)%nat ->
+  nth k (spectral_conv R rO rI radd rmul om omi invN N a b) rO =
+  circ_conv_at R rO radd rmul N a b k.
+Proof. exact conv_theorem. Qed.
+Print Assumptions C18_circular_convolution_theorem.
+
+(* Index layer, all nsx, nsw (unbounded), any commutative ring: for ANY length-ns
+   circular product cc that computes the circular sums (spectral_conv does, by
+   the theorem above), convolve(mode='full') has nsx + nsw entries, entry k equals
+   the direct convolution sum_{j<=k} x[j] w[k-j], and the entries from
+   nsx + nsw - 1 on (the one extra trailing entry) are 0. *)
+Theorem C18_fft_conv_full :
+  forall (R : Type) (rO rI : R) (radd rmul rsub : R -> R -> R) (ropp : R -> R),
+  ring_theory rO rI radd rmul rsub ropp (@eq R) ->
+  forall (cc : nat -> list R -> list R -> list R) (x w : list R),
+  (forall N a b k, (k < N)%nat -> nth k (cc N a b) rO = circ_conv_at R rO radd rmul N a b k) ->
+  (forall N a b, length (cc N a b) = N) ->
+  forall l, convolve_full_with R rO cc x w = Some l ->
+  length l = (length x + length w)%nat /\
+  (forall k, (k < length x + length w)%nat -> nth k l rO = conv_direct_at R rO radd rmul x w k) /\
+  (forall k, (length x + length w <= k + 1)%nat -> conv_direct_at R rO radd rmul x w k = rO).
+Proof.
+  intros R rO rI radd rmul rsub ropp Rth cc x w Hcc Hlen l H.
+  destruct (convolve_full_spec R rO rI radd rmul rsub ropp Rth cc x w Hcc Hlen l H) as [H1 H2].
+  split; [exact H1|]. split; [exact H2|]. exact (direct_tail_zero R rO rI radd rmul rsub ropp Rth x w).
+Qed.
+Print Assumptions C18_fft_conv_full.
+
+(* The executable circular product used when the model is run satisfies the
+   hypotheses of C18_fft_conv_full. *)
+Theorem C18_circ_conv_is_circular :
+  forall (R : Type) (rO : R) (radd rmul : R -> R -> R) N a b,
+  length (circ_conv R rO radd rmul N a b) = N /\
+  forall k, (k < N)%nat -> nth k (circ_conv R rO radd rmul N a b) rO = circ_conv_at R rO radd rmul N a b k.
+Proof.
+  intros. split; [unfold circ_conv; now rewrite map_length, seq_length|].
+  intros k Hk. unfold circ_conv. now rewrite nth_map_seq.
+Qed.
+Print Assumptions C18_circ_conv_is_circular.
+
+(* mode='same', both parities of nsw, nsw > nsx included: nsx entries, entry i is
+   entry i + (nsw-1) div 2 of the full result (SciPy's centring on the first argument). *)
+Theorem C18_fft_conv_same :
+  forall (R : Type) (rO : R) (cc : nat -> list R -> list R -> list R) (x w xw : list R),
+  (1 <= length w)%nat ->
+  convolve_full_with R rO cc x w = Some xw -> length xw = (length x + length w)%nat ->
+  exists s, convolve_same_with R rO cc x w = Some s /\ length s = length x /\
+    forall i, (i < length x)%nat ->
+      nth i s rO = nth (i + Z.to_nat ((Z.of_nat (length w) - 1) / 2)) xw rO.
+Proof.
+  intros R rO cc x w xw Hw Hfull Hlen. unfold convolve_same_with. rewrite Hfull.
+  eexists. split; [reflexivity|]. exact (same_crop xw (length x) (length w) rO Hw Hlen).
+Qed.
+Print Assumptions C18_fft_conv_same.
+
+(* ---- explicit DFT ------------------------------------------------------ *)
 Theorem C18_dft_lengths : forall ns, 0 <= ns ->
   dft_nk ns false = ns / 2 + 1 /\ dft_nk ns true = ns.
 Proof. intros ns H. split; [exact (dft_nk_real ns H) | reflexivity]. Qed.
 Print Assumptions C18_dft_lengths.
+
+(* The inverse transform undoes the forward transform (same hypotheses as the
+   convolution theorem). *)
+Theorem C18_idft_dft :
+  forall (R : Type) (rO rI : R) (radd rmul rsub : R -> R -> R) (ropp : R -> R)
+         (rdiv : R -> R -> R) (rinv : R -> R),
+  field_theory rO rI radd rmul rsub ropp rdiv rinv (@eq R) ->
+  forall (N : nat) (om omi invN : R),
+  (0 < N)%nat ->
+  rpow R rI rmul om N = rI ->
+  rmul om omi = rI ->
+  (forall d, (0 < d < N)%nat -> rpow R rI rmul om d <> rI) ->
+  rmul invN (rsum R rO radd N (fun _ => rI)) = rI ->
+  forall (x : list R) (k : nat), (k < N)%nat ->
+  nth k (idft R rO rI radd rmul omi invN N (dft R rO rI radd rmul om N x)) rO = getr R rO x k.
+Proof. exact idft_dft. Qed.
+Print Assumptions C18_idft_dft.
+
+(* ---- non-vacuity ------------------------------------------------------- *)
+(* padded size a power of three (odd): 3 + 24 = 27 *)
+Example C18_example_ns_optim : ns_optim 27 = Some 27 /\ ns_optim 28 = Some 32 /\ ns_optim 65532 = Some 65536.
+Proof. vm_compute. repeat split. Qed.
+
+Example C18_example_convolve :
+  convolve_full_with Z 0 (circ_conv Z 0 Z.add Z.mul) [1; 2] [1; 10; 100; 1000] = Some [1; 12; 120; 1200; 2000; 0] /\
+  convolve_same_with Z 0 (circ_conv Z 0 Z.add Z.mul) [1; 2] [1; 10; 100; 1000] = Some [12; 120] /\
+  convolve_same_with Z 0 (circ_conv Z 0 Z.add Z.mul) [1; 2; 3] [1; 10; 100] = Some [12; 123; 230].
+Proof. vm_compute. repeat split. Qed.
